@@ -64,6 +64,7 @@ fn dsp_protocol_constants() {
     assert!(IMMEDIATE_ACK_EVERY_RMSS == 2, "C07: immediate ACK once unacknowledged bytes reach twice the segment size");
     assert!(SYNACK_RESEND_INTERNAL == Duration::from_millis(200), "C17: SYN-ACK repeated on a 200 ms timer");
     assert!(crate::constants::SACK_DUP_THRESH == 3, "C06: three duplicate acknowledgements trigger fast retransmit");
+    kani::cover!(true, "end of harness reachable (assumptions satisfiable, no unconditional failure)");
 }
 
 fn any_state() -> VirtualSocketState {
@@ -109,6 +110,7 @@ fn dsp_state_helper_table() {
         _ => assert!(s.our_fin_if_unacked().is_none(), "C17: no FIN to retransmit in other states"),
     }
     assert!(s.is_remote_fin_or_later() == matches!(s, VirtualSocketState::LastAck { .. } | VirtualSocketState::Closed), "C17: remote FIN seen exactly in LastAck/Closed");
+    kani::cover!(true, "end of harness reachable (assumptions satisfiable, no unconditional failure)");
 }
 
 fn any_header(t: Type) -> UtpHeader {
@@ -147,4 +149,5 @@ fn dsp_stream_args_wiring() {
     assert!(b.seq_nr.0 == ack.ack_nr.0.wrapping_add(1) && b.last_sent_seq_nr.0 == ack.ack_nr.0, "C17: first data packet follows the acknowledged SYN");
     assert!(b.last_consumed_remote_seq_nr.0 == ack.seq_nr.0.wrapping_sub(1) && b.last_sent_ack_nr.0 == ack.seq_nr.0.wrapping_sub(1), "C17: the peer's first data packet will carry the sequence number of its SYN-ACK");
     assert!(b.state == VirtualSocketState::Established && b.remote_window == ack.wnd_size && b.rtt == Some(t1 - t0), "C17: initiator is established by the SYN-ACK; RTT seeded by the handshake");
+    kani::cover!(true, "end of harness reachable (assumptions satisfiable, no unconditional failure)");
 }
